@@ -71,16 +71,19 @@ type yieldMsg struct {
 
 // Task is one simulated caller thread.
 type Task struct {
-	ID       int
-	Name     string
-	Step     int // global step number of the step this task is executing
-	PanicVal any
-	sim      *Sim
-	resume   chan int
-	fn       func(*Task)
-	parked   int // site the task is parked at
-	prio     int
-	finished bool
+	ID        int
+	Name      string
+	Step      int // global step number of the step this task is executing
+	PanicVal  any
+	sim       *Sim
+	resume    chan int
+	fn        func(*Task)
+	parked    int // site the task is parked at
+	prio      int
+	finished  bool
+	g         uintptr // goroutine identity of the task (see getg)
+	lockDepth int     // library locks currently held by the task: no inner yields while > 0
+	inner     bool    // parked at an inner point (inside a library call)
 }
 
 // Sim is one simulated run: choice source, scheduler, stub-pool environment.
@@ -97,19 +100,21 @@ type Sim struct {
 	objs        []unsafe.Pointer
 
 	// scheduler
-	Strategy   int
-	StickyP    int
-	MaxSteps   int
-	tasks      []*Task
-	yieldCh    chan yieldMsg
-	running    *Task
-	step       int
-	wg         sync.WaitGroup
-	pctChange  []int
-	GCSteps    []int // scheduler step after which each gc event fired
-	Overrun    bool  // MaxSteps exceeded: remaining tasks were run sequentially
-	InnerEvery []int // run-global inner point indices at which Point() yields (see Point)
-	innerCount int
+	Strategy    int
+	StickyP     int
+	MaxSteps    int
+	tasks       []*Task
+	yieldCh     chan yieldMsg
+	running     *Task
+	step        int
+	wg          sync.WaitGroup
+	pctChange   []int
+	GCSteps     []int // scheduler step after which each gc event fired
+	Overrun     bool  // MaxSteps exceeded: remaining tasks were run sequentially
+	InnerG      int   // inner yield points: after each resume the gap to the next inner yield is Draw(InnerG), 0 = none
+	InnerBudget int   // inner yields left in this run
+	innerGap    int
+	spawned     []*Task
 
 	// measurements
 	Counters    [NumCounters]int64
@@ -231,6 +236,7 @@ func (s *Sim) Go(name string, fn func(*Task)) *Task {
 }
 
 func (t *Task) main() {
+	t.g = getg()
 	raceDisable()
 	t.Step = <-t.resume
 	raceEnable()
@@ -255,6 +261,12 @@ func (t *Task) main() {
 //
 //go:norace
 func (t *Task) Yield(site int) {
+	t.inner = false
+	t.yield(site)
+}
+
+//go:norace
+func (t *Task) yield(site int) {
 	raceDisable()
 	t.sim.yieldCh <- yieldMsg{t.ID, site}
 	t.Step = <-t.resume
@@ -264,25 +276,83 @@ func (t *Task) Yield(site int) {
 // Sim returns the task's simulation.
 func (t *Task) Sim() *Sim { return t.sim }
 
-// Point is an inner yield point for code running inside a task (inserted into
-// a scratch copy of the library by the rewriter, or called by harness loops).
-// It yields only at the run's pre-drawn inner indices, so it costs no tape.
+// Point is an inner yield point: the rewriter inserts a call before every
+// statement of the scratch copy of the library, and harness loops call it
+// between samples. After each resume the scheduler draws the gap to the next
+// inner yield (0 = none in this step), so inner pre-emption costs one tape
+// entry per step. It does nothing when called outside the task the scheduler
+// released (set-up code, foreign goroutines) or while the task holds a
+// library lock (yielding there could park the lock's owner for ever).
 //
 //go:norace
 func Point() {
 	s := cur
-	if s == nil || s.running == nil {
+	if s == nil || s.innerGap == 0 {
 		return
 	}
-	idx := s.innerCount
-	s.innerCount++
-	for i := 0; i < len(s.InnerEvery); i++ {
-		if s.InnerEvery[i] == idx {
-			s.Counters[CtInnerYields]++
-			s.running.Yield(s.running.parked)
-			return
-		}
+	t := s.running
+	if t == nil || t.lockDepth > 0 || getg() != t.g {
+		return
 	}
+	s.innerGap--
+	if s.innerGap > 0 {
+		return
+	}
+	s.InnerBudget--
+	s.Counters[CtInnerYields]++
+	t.inner = true
+	t.yield(t.parked)
+}
+
+// Locked / Unlocking bracket the library's own critical sections (inserted by
+// the rewriter after x.Lock()/x.RLock() and before x.Unlock()/x.RUnlock(),
+// and around once.Do).
+//
+//go:norace
+func Locked() {
+	if s := cur; s != nil && s.running != nil && getg() == s.running.g {
+		s.running.lockDepth++
+	}
+}
+
+//go:norace
+func Unlocking() {
+	if s := cur; s != nil && s.running != nil && getg() == s.running.g && s.running.lockDepth > 0 {
+		s.running.lockDepth--
+	}
+}
+
+// Spawn replaces "go f()" in the scratch copy of the library: a goroutine
+// started by library code on behalf of a task becomes a simulated task of its
+// own, so the scheduler still decides who runs. Goroutine creation stays a
+// real "go" statement executed by the parent, so the parent->child
+// happens-before edge is the real one.
+//
+//go:norace
+func Spawn(fn func()) {
+	s := cur
+	if s == nil || s.running == nil || getg() != s.running.g {
+		go fn()
+		return
+	}
+	t := &Task{ID: len(s.tasks), Name: "spawned-by-library", sim: s, resume: make(chan int), parked: siteStart,
+		fn: func(*Task) { fn() }}
+	n := len(s.tasks)
+	bigger := make([]*Task, n+1)
+	for i := 0; i < n; i++ {
+		bigger[i] = s.tasks[i]
+	}
+	bigger[n] = t
+	s.tasks = bigger
+	m := len(s.spawned)
+	sp := make([]*Task, m+1)
+	for i := 0; i < m; i++ {
+		sp[i] = s.spawned[i]
+	}
+	sp[m] = t
+	s.spawned = sp
+	s.wg.Add(1)
+	go t.main()
 }
 
 //go:norace
@@ -396,6 +466,10 @@ func (s *Sim) Run(estSteps int) {
 			}
 		}
 		t := runnable[idx]
+		s.innerGap = 0
+		if s.InnerG > 0 && s.InnerBudget > 0 {
+			s.innerGap = s.Sched.Draw(s.InnerG)
+		}
 		s.step++
 		s.Counters[CtSteps]++
 		s.progress.Add(1)
@@ -404,8 +478,15 @@ func (s *Sim) Run(estSteps int) {
 			s.SwitchPairs[lastSite][t.parked] = true
 		}
 		s.mix(uint64(t.ID)<<8 | uint64(t.parked))
+		if t.inner {
+			s.mix(0xf000 | uint64(s.innerGap))
+		}
 		if s.Tracing {
-			s.Tracef("step %d: task %d (%s) runs %s", s.step, t.ID, t.Name, s.siteName(t.parked))
+			if t.inner {
+				s.Tracef("step %d: task %d (%s) continues inside %s (pre-empted at an inner point)", s.step, t.ID, t.Name, s.siteName(t.parked))
+			} else {
+				s.Tracef("step %d: task %d (%s) runs %s", s.step, t.ID, t.Name, s.siteName(t.parked))
+			}
 		}
 		lastSite = t.parked
 		s.running = t
@@ -414,6 +495,10 @@ func (s *Sim) Run(estSteps int) {
 		s.running = nil
 		last = t
 		t.parked = m.site
+		for i := 0; i < len(s.spawned); i++ {
+			runnable = append(runnable, s.spawned[i])
+		}
+		s.spawned = nil
 		if m.site == siteDone {
 			t.finished = true
 			k := 0
